@@ -136,3 +136,78 @@ Section Proofs.
       + unfold logged, outcome. simpl. rewrite <- Hs. auto.
   Qed.
 End Proofs.
+
+(* ------------------------------------------------------------------ multi-energy time series *)
+Section MultiProofs.
+  Variable C V R : Type.
+  Variable ceqb : C -> C -> bool.
+  Hypothesis ceqb_spec : forall a b, ceqb a b = true <-> a = b.
+  Variable spec : desc C V -> option R.
+  Hypothesis spec_ext : forall u u', (forall c, u c = u' c) -> spec u = spec u'.
+  Variable cells derived reads : list C.
+  Variable couple : desc C V -> desc C V.
+  Variable profile : nat -> C -> V.
+  (* the couplings change only derived cells ... *)
+  Hypothesis couple_frame : forall u c, ~ In c derived -> couple u c = u c.
+  (* ... whose new value depends only on the cells the couplings read ... *)
+  Hypothesis couple_reads : forall u u' c, (forall r, In r reads -> u r = u' r) -> In c derived ->
+    couple u c = couple u' c.
+  (* ... and no coupling reads what a coupling writes (no chains within one step), and profiles do not
+     drive derived cells *)
+  Hypothesis reads_not_derived : forall c, In c reads -> ~ In c derived.
+  Hypothesis cells_not_derived : forall c, In c cells -> ~ In c derived.
+
+  Notation write_step := (write_step C V ceqb cells profile).
+  Notation mstep := (mstep C V ceqb cells couple profile).
+  Notation mloop := (mloop C V R ceqb spec cells couple profile).
+
+  Definition same_off (u u0 : desc C V) : Prop := forall c, ~ In c cells -> ~ In c derived -> u c = u0 c.
+
+  Lemma mstep_from_any : forall t u u0, same_off u u0 -> forall c, mstep t u c = mstep t u0 c.
+  Proof.
+    intros t u u0 H c. unfold Model.mstep.
+    assert (W : forall x, ~ In x derived -> write_step t u x = write_step t u0 x).
+    { intros x Hx. unfold Model.write_step.
+      destruct (in_dec (ceq_dec C ceqb ceqb_spec) x cells) as [Hin|Hnin].
+      - rewrite !(fold_in C V ceqb ceqb_spec); auto.
+      - rewrite !(fold_other C V ceqb ceqb_spec); auto. }
+    destruct (in_dec (ceq_dec C ceqb ceqb_spec) c derived) as [Hd|Hd].
+    - apply couple_reads; auto.
+    - rewrite !couple_frame; auto.
+  Qed.
+
+  Lemma mstep_off : forall t u u0, same_off u u0 -> same_off (mstep t u) u0.
+  Proof.
+    intros t u u0 H c Hc Hd. unfold Model.mstep. rewrite couple_frame; auto.
+    unfold Model.write_step. rewrite (fold_other C V ceqb ceqb_spec); auto.
+  Qed.
+
+  Lemma mloop_rows : forall cod steps u u0 log, same_off u u0 ->
+    (forall t r, In (t, r) log -> r = spec (mstep t u0)) ->
+    forall t r, In (t, r) (logged C V R (mloop cod steps u log)) -> r = spec (mstep t u0).
+  Proof.
+    intros cod steps. induction steps as [|s rest IH]; intros u u0 log Hoff Hlog t r Hin; simpl in Hin.
+    - auto.
+    - assert (Hs : spec (mstep s u) = spec (mstep s u0)) by (apply spec_ext; apply mstep_from_any; auto).
+      assert (Hoff' := mstep_off s u u0 Hoff).
+      destruct (spec (mstep s u)) as [row|] eqn:E.
+      + eapply IH; [exact Hoff' | | exact Hin].
+        intros t' r' H'. apply in_app_or in H'. destruct H' as [H'|[H'|[]]]; auto.
+        inversion H'; subst. congruence.
+      + destruct cod.
+        * eapply IH; [exact Hoff' | | exact Hin].
+          intros t' r' H'. apply in_app_or in H'. destruct H' as [H'|[H'|[]]]; auto.
+          inversion H'; subst. congruence.
+        * unfold logged in Hin. simpl in Hin.
+          apply in_app_or in Hin. destruct Hin as [H'|[H'|[]]]; auto.
+          inversion H'; subst. congruence.
+  Qed.
+
+  Lemma multinet_step_lemma : forall cod steps u0 t r,
+    In (t, r) (logged C V R (mloop cod steps u0 [])) -> r = spec (mstep t u0).
+  Proof.
+    intros. eapply mloop_rows; eauto.
+    - intros c _ _. reflexivity.
+    - intros t' r' [].
+  Qed.
+End MultiProofs.
